@@ -71,6 +71,9 @@ impl<'a> G<'a> {
                 } else if in_proc && !in_loop && self.rng.chance(1, 6) {
                     // a stray break/continue: escaping the procedure body it becomes an error
                     if self.rng.chance(1, 2) { tag("break", vec![]) } else { tag("continue", vec![]) }
+                } else if in_proc && self.rng.chance(1, 8) {
+                    // a user-defined control command: takes effect in the caller as break / continue
+                    if self.rng.chance(1, 2) { tag("retbreak", vec![]) } else { tag("retcont", vec![]) }
                 } else if in_proc && self.rng.chance(1, 2) {
                     tag("return", vec![self.expr(1)])
                 } else {
@@ -90,7 +93,9 @@ impl<'a> G<'a> {
                 self.counter += 1;
                 let c = format!("c{}", self.counter);
                 let k = self.rng.below(4) as i64;
-                tag("while", vec![ts(&c), ti(k), self.block(depth - 1, true, in_proc)])
+                // one loop in four tests through a command substitution: while {[incr c] <= K} body
+                let kind = if self.rng.chance(1, 4) { "whilec" } else { "while" };
+                tag(kind, vec![ts(&c), ti(k), self.block(depth - 1, true, in_proc)])
             }
             9 => {
                 self.counter += 1;
@@ -161,6 +166,8 @@ fn rstmt(st: &Term, ind: usize) -> String {
         }
         "lappend" => format!("lappend {} [expr {{{}}}]", st.nth(1).as_str(), rexpr(st.nth(2))),
         "break" => "break".to_string(),
+        "retbreak" => "return -code break".to_string(),
+        "retcont" => "return -code continue".to_string(),
         "continue" => "continue".to_string(),
         "return" => format!("return [expr {{{}}}]", rexpr(st.nth(1))),
         "if" => {
@@ -182,6 +189,10 @@ fn rstmt(st: &Term, ind: usize) -> String {
             let c = st.nth(1).as_str();
             format!("set {} 0; while {{${} < {}}} {{\n{}incr {}\n{}{}}}", c, c, st.nth(2).as_int(), " ".repeat(ind + 2), c,
                 rblock(st.nth(3), ind + 2), " ".repeat(ind))
+        }
+        "whilec" => {
+            let c = st.nth(1).as_str();
+            format!("set {} 0; while {{[incr {}] <= {}}} {}", c, c, st.nth(2).as_int(), braced(st.nth(3), ind))
         }
         "for" => {
             let c = st.nth(1).as_str();
